@@ -551,6 +551,23 @@ type NamedPrims struct {
 	P    *NF32
 }
 
+// InlineNums inlines a map of every numeric element kind (one generated
+// inline folder per kind).
+type InlineNums struct {
+	Name string
+	U    map[string]uint    `struct:",inline"`
+	U8   map[string]uint8   `struct:",inline"`
+	U16  map[string]uint16  `struct:",inline"`
+	U32  map[string]uint32  `struct:",inline"`
+	U64  map[string]uint64  `struct:",inline"`
+	I8   map[string]int8    `struct:",inline"`
+	I16  map[string]int16   `struct:",inline"`
+	I32  map[string]int32   `struct:",inline"`
+	I64  map[string]int64   `struct:",inline"`
+	F32  map[string]float32 `struct:",inline"`
+	F64  map[string]float64 `struct:",inline"`
+}
+
 // Empty has size zero: slices of it have elements without extent.
 type Empty struct{}
 
@@ -1830,6 +1847,27 @@ var Catalogue = []TypeEntry{
 		return Lists{Name: genStr(c), A: genIntList(c, 0), L: genSlice(c, func(c *simkit.Choices) IntList { return genIntList(c, 1) }),
 			M: genMap(c, func(c *simkit.Choices) IntList { return genIntList(c, 1) })}
 	}),
+	foldOnly(mk("InlineNums", true, func(c *simkit.Choices) InlineNums {
+		v := InlineNums{Name: genStr(c)}
+		switch c.N(4) {
+		case 0:
+			v.U = map[string]uint{"u." + GenKey(c, 4): uint(c.N(1000))}
+			v.U8 = map[string]uint8{"u8." + GenKey(c, 4): uint8(c.N(256))}
+			v.U16 = map[string]uint16{"u16." + GenKey(c, 4): uint16(c.N(65536))}
+		case 1:
+			v.U32 = map[string]uint32{"u32." + GenKey(c, 4): uint32(genI(c))}
+			v.U64 = map[string]uint64{"u64." + GenKey(c, 4): genU64(c)}
+			v.I8 = map[string]int8{"i8." + GenKey(c, 4): int8(c.N(256))}
+		case 2:
+			v.I16 = map[string]int16{"i16." + GenKey(c, 4): int16(c.N(65536))}
+			v.I32 = map[string]int32{"i32." + GenKey(c, 4): int32(genI(c))}
+			v.I64 = map[string]int64{"i64." + GenKey(c, 4): genI(c)}
+		case 3:
+			v.F32 = map[string]float32{"f32." + GenKey(c, 4): float32(c.N(1000)) / 8}
+			v.F64 = map[string]float64{"f64." + GenKey(c, 4): genF(c)}
+		}
+		return v
+	})),
 	mk("Label", true, func(c *simkit.Choices) Label { return Label{S: genStr(c)} }),
 	mk("Labeled", true, func(c *simkit.Choices) Labeled {
 		l := Labeled{Name: genStr(c), L: Label{S: genStr(c)}, LL: genSlice(c, func(c *simkit.Choices) Label { return Label{S: genStr(c)} }),
@@ -1886,7 +1924,7 @@ var families = map[string][]string{
 	"shape":  {"map[string]Shape", "[]Shape", "Shapes", "map[string]interface{}", "[]interface{}"},
 	"folder": {"WithFolder", "InlineFolder", "InlineIfc", "InlineMap", "InlineTyped", "map[string]interface{}"},
 	"local":  {"local-A.record", "local-B.record"},
-	"inline": {"InlinePtrA", "InlinePtrB", "InlineValB", "InlineIfc", "InlineMap", "Inline2", "Inner", "[]*Inner"},
+	"inline": {"InlineNums", "InlinePtrA", "InlinePtrB", "InlineValB", "InlineIfc", "InlineMap", "Inline2", "Inner", "[]*Inner"},
 	"ifc":    {"interface{}", "[]interface{}", "map[string]interface{}", "[]map[string]interface{}", "Strs", "Tagged"},
 }
 
